@@ -114,6 +114,7 @@ def finish(ctx, explanation, level='other'):
             'samples': ctx.samples or ['(no samples recorded)'],
             'analysed': ctx.analysed,
             'rules': ctx.rules_run,
+            'notes': ctx.notes[:60],
             'known_findings_hit': sorted(seen),
             'broken_preconditions': ctx.broken,
             'checker_cmd': './bin/check %s --tier %s' % (ctx.pid, ctx.tier),
